@@ -33,7 +33,8 @@ fn main() {
         ],
         parts: vec![
             PropPart::new("rollback", 400, 12_000, prog::rollback_strategy, check::run).shrink_iters(400).boxed(),
-            PropPart::new("retention", 48, 1_600, prog::retention_strategy, check::run).shrink_iters(60).boxed(),
+            PropPart::new("retention", 48, 1_600, prog::retention_strategy, check::run).shrink_iters(24).boxed(),
+            PropPart::new("burst", 16, 160, prog::burst_strategy, check::burst).shrink_iters(8).boxed(),
         ],
         children: vec![],
     });
